@@ -19,6 +19,7 @@
    they mention frames only, never bytes or offsets. *)
 From Coq Require Import NArith List Bool.
 From LLRP Require Import Client.Stream Client.StreamProofs.
+From LLRP Require Client.Types Client.Model Client.InvCore Client.Refine.
 Import ListNotations.
 Open Scope N_scope.
 
@@ -96,6 +97,35 @@ Theorem C04_fuel_suffices :
   r_end (serve maxbuf cfg st env bs) <> EndOutOfFuel.
 Proof. exact serve_never_out_of_fuel. Qed.
 Print Assumptions C04_fuel_suffices.
+
+(* The byte-level loop refines the client LTS of Client/Model.v (the model behind C03, C05, C07,
+   C08, C09): from an LTS state s whose reader is in readHeader and a byte-level state st that
+   agree on the awaited ids and on receivedClosed ([Refine.rel]; [core_inv] is the LTS's proved
+   invariant), for every stream concat(map frame_bytes fs) ++ rest the dispatch records the byte
+   loop produces — the first |fs| entries of its log — are, through [Refine.view_log], exactly
+   what the LTS appends to [delivered] and [handled] when it steps
+   RFrame (abs f) (abs_hb ..); RCheck for each f in order; the frames it has read are the
+   abstractions of fs ([Refine.frames_sim]: also the awaiting map, saw_close, and that nothing
+   on the write side changes).  So the LTS's atomic RFrame is a sound abstraction of header
+   decode + dispatch + buffering + handler consumption + drain, and theorems about LTS runs
+   speak about real byte streams.  The byte model is taken at maxbuf = max_buffered, with
+   registrations as separate LTS events (e_register = []) and e_close_sent = true; how the
+   stream's end corresponds to PeerEOF, and the two inputs on which the models differ, are
+   Refine.refine_eof_* and Refine.disagree_*. *)
+Theorem C04_read_loop_refines_lts :
+  forall (tag : list N -> N) (info_of : N -> list N -> Types.info) (cfg : Types.config)
+         (fs : list frame) (s : Types.state) (st : state) (env : nat -> env_step) (rest : list byte),
+  Forall frame_wf fs -> Types.reader s = Types.RRead -> Types.closed s = false ->
+  Refine.rel st s -> InvCore.core_inv cfg s -> Refine.read_env env ->
+  let r := serve Types.max_buffered (Refine.cfg_of cfg) st env (concat (map frame_bytes fs) ++ rest) in
+  let log := firstn (length fs) (r_log r) in
+  r = prepend log (serve_from Types.max_buffered (Refine.cfg_of cfg)
+                     (state_after (Refine.cfg_of cfg) st env O fs) env (length fs) rest) /\
+  length log = length fs /\
+  Refine.frames_sim tag info_of cfg s (Model.run_from cfg s (Refine.events_of tag info_of env O fs))
+                    st env O fs log.
+Proof. exact Refine.read_loop_refines_lts. Qed.
+Print Assumptions C04_read_loop_refines_lts.
 
 (* the header codec used above agrees with the wire format for every well-formed frame *)
 Theorem C04_header_roundtrip :
